@@ -422,6 +422,84 @@ func runC11(r *Run) {
 			"FormBinding.Bind does not decide on the media type itself: `Content-Type: multipart/form-data` without a (usable) boundary is read as url-encoded, nothing is bound and no error is reported — the handler gets 200 with an untouched destination instead of 400")
 	})
 
+	r.rule("R9", "a pooled decoder is configured where it is built: the schema decoders are shared through sync.Pool per binder tag, so the options that change what a decode yields (ZeroEmpty, IgnoreUnknownKeys, RegisterConverter, …) are set only in the function that creates the decoder (schema.NewDecoder); the only per-use setting is SetAliasTag, unconditionally ahead of Decode — an option flipped at one use stays with the decoder for the next form (E2 ownership of pooled state)", func() {
+		nOpt, nUse := 0, 0
+		r.P.AllFuncs("binder", func(f *ssa.Function) {
+			builds := len(callsMatching(f, false, nameHasSuffix("schema.NewDecoder"))) > 0
+			for _, c := range callsIn(f, false) {
+				if !strings.Contains(c.Name, "schema.Decoder).") {
+					continue
+				}
+				m := c.Name[strings.LastIndex(c.Name, ".")+1:]
+				switch m {
+				case "Decode":
+					nUse++
+				case "SetAliasTag":
+					if builds {
+						continue
+					}
+					// per-use: on every path to Decode
+					okAll := true
+					for _, d := range callsMatching(f, false, nameHasSuffix("schema.Decoder).Decode")) {
+						if _, hit := reach(entryOf(f), func(in ssa.Instruction) bool { return in == d.Instr }, nil, func(in ssa.Instruction) bool { return in == c.Instr }); hit != nil {
+							okAll = false
+						}
+					}
+					r.check(okAll, short(f.String())+":SetAliasTag-before-every-Decode", r.pos(c.Instr), "the pooled decoder's tag is set on every path to Decode", "a pooled decoder can be used with the alias tag its previous user left")
+				default:
+					nOpt++
+					r.check(builds, short(f.String())+":decoder-option-"+m+":set-where-built", r.pos(c.Instr), "set in the function that creates the decoder",
+						"a decoding option ("+m+") is changed on a decoder taken from the pool: it stays changed for whoever takes that decoder next — after one multipart upload, forms lose their empty elements (`names=&names=x&names=` binds as [x]) and `title=` no longer zeroes a preset field")
+				}
+			}
+		})
+		r.atLeast("decoder option calls", nOpt, 2)
+		r.atLeast("Decode calls", nUse, 1)
+	})
+
+	r.rule("R10", "a key that cannot be formatted is an error of the bind: the error formatBindData returns at every call site is kept — stored into the variable the binder returns or returned itself — not merely tested (a `:=` inside the visitor would drop it: `tags[=x` is skipped silently and Bind().Body() answers 200 instead of 400) (E1 error discipline)", func() {
+		n := 0
+		r.P.AllFuncs("binder", func(f *ssa.Function) {
+			for _, c := range callsMatching(f, false, func(s string) bool { return strings.Contains(s, "binder.formatBindData") }) {
+				v := c.Value()
+				if v == nil {
+					r.bad(short(f.String())+":formatBindData:error-kept", r.pos(c.Instr), "the result of formatBindData is discarded")
+					n++
+					continue
+				}
+				n++
+				kept := false
+				seen := map[ssa.Value]bool{}
+				var walk func(x ssa.Value)
+				walk = func(x ssa.Value) {
+					if seen[x] || x.Referrers() == nil {
+						return
+					}
+					seen[x] = true
+					for _, u := range *x.Referrers() {
+						switch y := u.(type) {
+						case *ssa.Store:
+							if y.Val == x {
+								kept = true
+							}
+						case *ssa.Return:
+							kept = true
+						case *ssa.Phi:
+							walk(y)
+						case *ssa.MakeInterface:
+							walk(y)
+						case *ssa.ChangeInterface:
+							walk(y)
+						}
+					}
+				}
+				walk(v)
+				r.check(kept, short(f.String())+":formatBindData:error-kept", r.pos(c.Instr), "the error is stored or returned", "the error of formatBindData is only looked at, never stored or returned: a key with unmatched brackets is skipped silently and the bind reports success")
+			}
+		})
+		r.atLeast("formatBindData call sites", n, 6)
+	})
+
 	r.rule("R5", "visitor error latch (E1)", func() {
 		n := 0
 		for _, b := range []string{"HeaderBinding", "RespHeaderBinding", "CookieBinding", "QueryBinding", "FormBinding"} {
